@@ -57,7 +57,8 @@ CLAIMS["C16"] = (
     "integer grid [-128,127]^2 in the quick tier; 3 vertices full width and 4 on the grid in the thorough tier. "
     "Outside: that the NATURAL cumulative lengths equal the true segment lengths and that the moved end point lies "
     "on the cut segment / its extension (need sqrt/normalise equivalence under tolerance: did not finish); Catmull "
-    "simplification clause; paths > 4 vertices; end-to-end Curve::new (out of memory at 24 GB).",
+    "simplification clause; paths > 4 vertices. End-to-end Curve::new only with CONCRETE Linear control points and "
+    "a symbolic requested length (distance = L for every finite L > 0; symbolic points run out of memory at 24 GB).",
     "DESIGN.md §5 C16",
     TECH + "; output-shape specification decided over all inputs of one kernel call",
 )
@@ -209,8 +210,8 @@ CLAIMS["C07"] = (
     "and decoders that do not own a section ignore it; Beatmap::from(BeatmapState) copies every numeric / flag field "
     "(all symbolic) of General, Difficulty, Editor, Metadata and the version, and keeps two arbitrary breaks in file order.",
     "Bound: 2 templates per shared section; conversions with empty object / control-point lists. " + ORACLE_NOTE +
-    " Outside: timing-point and hit-object line delegation (same one-line forwarding, not yet harnessed), "
-    "should_skip_line equality across types beyond C05's default-method check, lines outside the corpus.",
+    " A timing line and a circle line are decided the same way (equal pending group / equal stored object). "
+    "Outside: more than one line per section, lines outside the corpus.",
     "DESIGN.md §5 C07",
     TECH + "; two-run (full vs. specialised decoder) equality under one oracle interpretation",
 )
